@@ -191,6 +191,24 @@ pub fn svg_of(ops: &[Op], q: &fast_qr::QRCode) -> String {
 
 // ---- generators of option values --------------------------------------------------------------
 pub fn rand_color(rng: &mut Rng) -> ColorArg {
+    // one time in four an ORDINARY colour in one of its spellings — what users actually pass, and the only way two
+    // colour arguments of one builder ever coincide (each other, or the defaults #000000 / #ffffff)
+    if rng.chance(1, 4) {
+        return match rng.below(12) {
+            0 => ColorArg::Rgba([0, 0, 0, 255]),
+            1 => ColorArg::Rgb([0, 0, 0]),
+            2 => ColorArg::Str("#000000".to_string()),
+            3 => ColorArg::Rgba([255, 255, 255, 255]),
+            4 => ColorArg::Str("#ffffff".to_string()),
+            5 => ColorArg::Str("#FFFFFF".to_string()),
+            6 => ColorArg::Rgba([0, 0, 0, 0]),
+            7 => ColorArg::Str("#00000000".to_string()),
+            8 => ColorArg::Str("black".to_string()),
+            9 => ColorArg::Str("rgba(0, 0, 0, 0.5)".to_string()),
+            10 => ColorArg::Str("rgb(12.5%, 50%, 100%)".to_string()),
+            _ => ColorArg::Rgb([255, 0, 0]),
+        };
+    }
     match rng.below(4) {
         0 => ColorArg::Rgb([rng.byte(), rng.byte(), rng.byte()]),
         1 => {
